@@ -1,12 +1,18 @@
 #!/bin/sh
-# usage: mutcheck.sh <patch.diff> <property> [wall_s]  -- apply a seeded change to /repo, run the quick check, revert.
+# usage: mutcheck.sh <abs patch.diff> <property> [wall_s]
+# Runs the quick check of <property> against a scratch worktree of /repo HEAD carrying the seeded change.
+# /repo itself and /verif/evidence are not touched (VERIF_MUT_REPO is a development-only override that the
+# registered commands never set), so it can run next to a normal check. Exit status of the check is printed.
 P=$1; PROP=$2; WALL=${3:-60}
-cd /repo || exit 2
-git apply "$P" || { echo "patch does not apply"; exit 2; }
+WT=/tmp/mutcheck-wt.$$
+B=/verif/build/mut.$$
+git -C /repo worktree add --detach $WT HEAD >/dev/null 2>&1 || { echo "worktree failed"; exit 2; }
+( cd $WT && git apply "$P" ) || { echo "patch does not apply"; git -C /repo worktree remove --force $WT; exit 2; }
 cd /verif
-VERIF_WALL_S=$WALL ./check $PROP quick > /tmp/mutcheck.$$.log 2>&1
+VERIF_MUT_REPO=$WT VERIF_MUT_BUILD=$B VERIF_WALL_S=$WALL ./check $PROP quick > $B.log 2>&1
 RC=$?
-git -C /repo checkout -- .
-tail -${TAILN:-6} /tmp/mutcheck.$$.log
-rm -f /tmp/mutcheck.$$.log
+git -C /repo worktree remove --force $WT
+grep -m1 "^rule:" $B.log; tail -${TAILN:-6} $B.log | grep -v "^rule:"
+if [ -n "$KEEP_REPLAY" ] && ls $B/replays/*.json >/dev/null 2>&1; then mkdir -p $KEEP_REPLAY; cp $B/replays/*.json $KEEP_REPLAY/; fi
+rm -rf $B $B.log
 echo "exit=$RC"
